@@ -43,7 +43,7 @@ reg("L8c", flow.rule_L8c, 10)
 reg("L9", flow.rule_L9, 1)
 reg("L6e", flow.rule_L6e, 3)
 
-for _f, _n in (("N1", 10), ("N2", 10), ("N3", 10), ("N4", 10), ("N5", 8), ("N6", 6), ("N7", 6), ("N8", 8), ("N9", 20), ("N10", 2), ("N11", 2), ("N12", 1), ("X1", 10)):
+for _f, _n in (("N1", 10), ("N2", 10), ("N3", 10), ("N4", 10), ("N5", 8), ("N6", 6), ("N7", 6), ("N8", 8), ("N9", 20), ("N10", 2), ("N11", 2), ("N12", 1), ("N4i", 2), ("X1", 10)):
     reg(_f, getattr(names, "rule_" + _f), _n)
 
 for _f, _n in (("P1", 10), ("P2", 6), ("P3", 4), ("P4", 8), ("P5", 15), ("P6", 8), ("P7", 12), ("P8", 2)):
@@ -136,7 +136,7 @@ PROPS = {
               "reshape/flip idiom (S7); address maps as affine terms on every path (S3); split accounting, first/middle/last piece indices, zero-size guard, length check (S4); re-sync "
               "before every underlying read (S6); container windows: MDX offset = sizeof(header), size = eof - offset; MDF geometry (L2). A chained file view is always built over get_path's list, in chain order (D4)."
               "" + NOT + "equality with a reference model over operation histories; empty views; short reads of the underlying file."),
-    "C09": _p(["C1", "C2", "S8", "S3", "S4p", "L1c", "L2", "Q3", "Q2", "Q1", "S5", "S10"],
+    "C09": _p(["C1", "C2", "S8", "S3", "S4p", "L1c", "L2", "Q3", "Q2", "Q1", "S5", "S10", "I9"],
               "Decides: detection cascade order and the stream each probe/parser receives (C1); data-track existential and CDDA branch (C2); every probe restores the borrowed stream's "
               "position on every normal exit (S8); MDF geometry 2352 = 16+2048+288, size = (n // 2352) * 2048 (S3); MDX window offset = sizeof(header), size = eof - offset; container "
               "header layouts (L1c, L2); ASCII probe and fallbacks (Q3); the 2048-byte user-data view reads through the same multi-sector split as every "
@@ -166,7 +166,7 @@ PROPS = {
               "exponential-backtracking construct - nested unbounded repeats or overlapping alternatives under a repeat (T5); a failed block read ends the data iterator with "
               "StopIteration (S9: an empty block instead would be re-requested forever)." + NOT + "complexity constants; loops inside construct/numpy; peak memory.",
               ["sector_length/buffer_length attributes are positive (constructor sites pass positive constants)", "the element parent relation is a tree"]),
-    "C14": _p(["I1", "I5", "I4", "L1t", "L4", "L2", "S1", "S2", "L9", "L8r", "I9", "I11", "N12", "O1"],
+    "C14": _p(["I1", "I5", "I4", "L1t", "L4", "L2", "S1", "S2", "L9", "L8r", "I9", "I11", "N12", "O1", "N4i"],
               "Decides: in the AKAI file-table loop the handler re-seeks to entry start + entry size and continues; in lazy file realisation the error path appends nothing and continues; "
               "the four Roland sample references and tolerant lists skip a failing element; Roland records are addressed absolutely (Computed/Pointer/Lazy only) so element i cannot shift "
               "element j (I1, L4); 24-byte file entries / record layouts (L1t, L2); out-of-range start sectors raise the exception the loop swallows (S1, S2); the file table is scanned to the "
